@@ -343,7 +343,7 @@ func TestVerif(t *testing.T) {
 			for j := 0; j < nops; j++ {
 				switch r.Intn(10) {
 				case 0, 1, 2:
-					cs.Ops = append(cs.Ops, op{Op: "advance", AdvanceMs: int64(r.Pick(1, 999, 1000, 149999, 150000, 150001, 299000, 300000, 301000, 451000, 600000, 601000, 750000))})
+					cs.Ops = append(cs.Ops, op{Op: "advance", AdvanceMs: int64(r.Pick(1, 999, 1000, 149999, 150000, 150001, 299000, 300000, 301000, 451000, 600000, 601000, 659000, 660000, 661000, 750000, 810000))})
 				case 3:
 					cs.Ops = append(cs.Ops, op{Op: "cleanup"})
 				case 4, 5, 6:
